@@ -42,6 +42,10 @@ const B: &[&str] = &[
     "pub type T { T(v: Int) }\npub fn inc(n: Int) -> Int { n + 1 }\n",
     "pub fn inc(n: Int -> Int { n + 1 \npub type T { T(v: Int) }\n",
     "",
+    // a function whose inferred type mentions a custom type, and the same with the type renamed in
+    // place (what is shown for the function must follow the rename whatever was asked before)
+    "pub fn inc(n: Int) -> Int { n + 1 }\npub type T { T(v: Int) }\npub fn mk() { T(1) }\npub fn mks() { [mk()] }\n",
+    "pub fn inc(n: Int) -> Int { n + 1 }\npub type R { T(v: Int) }\npub fn mk() { T(1) }\npub fn mks() { [mk()] }\n",
     // imports names from `a` unqualified: with a's version 11 (which imports from `b` unqualified) the two modules import from each other
     "import a.{both}\npub fn inc(n: Int) -> Int { n + 1 }\npub type T { T(v: Int) }\npub fn back(y) { both(y) }\n",
 ];
